@@ -7,9 +7,12 @@
 package c10
 
 import (
+	stderrors "errors"
 	"fmt"
+	"net/http"
 	"net/url"
 	"path"
+	"regexp"
 	"sort"
 	"strings"
 	"testing"
@@ -71,7 +74,7 @@ func (w *writer) WriteToRequest(req runtime.ClientRequest, _ strfmt.Registry) er
 		_ = req.SetPathParam(k, w.path[k])
 	}
 	for _, k := range w.qkeys {
-		_ = req.SetQueryParam(k, w.query[k]...)
+		_ = req.SetQueryParam(k, append([]string(nil), w.query[k]...)...) // the request gets its own copy: the reference keeps its own
 	}
 	return nil
 }
@@ -186,6 +189,11 @@ func (prop) Run(t *testing.T, tape *kernel.Tape, sc kernel.Scenario) *kernel.Res
 	if tape.Bool(5, "extra-value") {
 		values["unused"] = "zzz"
 	}
+	if len(used) > 0 && tape.Bool(6, "placeholder-left-unset") {
+		// the caller forgot one: its placeholder stays as written
+		delete(values, used[tape.Choose(len(used), "which-unset")])
+		awkward = true
+	}
 	setOrder := make([]string, 0, len(values))
 	for k := range values {
 		setOrder = append(setOrder, k)
@@ -200,9 +208,14 @@ func (prop) Run(t *testing.T, tape *kernel.Tape, sc kernel.Scenario) *kernel.Res
 	opSchemes := [][]string{nil, {"http"}, {"https"}, {"http", "https"}, {"https", "http"}, {"ws", "wss"}, {"http", "ws", "https"}}[tape.Choose(7, "op-schemes")]
 	salt := uint64(tape.Choose(1<<16, "map-order-salt"))
 	// the Runtime is long-lived: other requests are built on it before and after the measured one
-	earlierFails := tape.Bool(4, "earlier-request-fails") // its params writer fails after setting a query parameter
-	earlierOther := tape.Bool(4, "earlier-request-other") // same operation id, other scheme list and values
-	laterOther := tape.Bool(3, "later-request")           // built afterwards: must not change the measured request
+	earlierFails := tape.Bool(4, "earlier-request-fails")          // its params writer fails after setting a query parameter
+	earlierOther := tape.Bool(4, "earlier-request-other")          // same operation id, other scheme list and values
+	laterOther := tape.Bool(3, "later-request")                    // built afterwards: must not change the measured request
+	earlierSame := tape.Bool(4, "earlier-request-same-pattern")    // same pattern, every placeholder set, to other values
+	earlierExchangeFails := tape.Bool(5, "earlier-exchange-fails") // an earlier call over https died in the transport
+	if earlierSame || earlierExchangeFails {
+		env.Fault("other-requests-on-the-same-runtime")
+	}
 	if earlierFails || earlierOther || laterOther {
 		env.Fault("other-requests-on-the-same-runtime")
 	}
@@ -303,6 +316,25 @@ func (prop) Run(t *testing.T, tape *kernel.Tape, sc kernel.Scenario) *kernel.Res
 		if earlierOther {
 			_, _ = rt.CreateHttpRequest(otherOp(false))
 		}
+		if earlierSame {
+			_, _ = rt.CreateHttpRequest(&runtime.ClientOperation{ID: "op", Method: "GET", PathPattern: pattern, Schemes: opSchemes,
+				ProducesMediaTypes: []string{"application/json"}, ConsumesMediaTypes: []string{"application/json"},
+				Params: runtime.ClientRequestWriterFunc(func(req runtime.ClientRequest, _ strfmt.Registry) error {
+					for _, m := range placeholderRe.FindAllStringSubmatch(pattern, -1) {
+						_ = req.SetPathParam(m[1], "earlier-"+m[1])
+					}
+					return req.SetQueryParam("stale", "left-over")
+				})})
+		}
+		if earlierExchangeFails {
+			saved := rt.Transport
+			rt.Transport = failingTransport{}
+			op := otherOp(false)
+			op.Schemes = []string{"http", "https"}
+			op.Reader = runtime.ClientResponseReaderFunc(func(runtime.ClientResponse, runtime.Consumer) (interface{}, error) { return nil, nil })
+			_, _ = rt.Submit(op)
+			rt.Transport = saved
+		}
 		w := &writer{path: values, order: ordered, query: callerQ, qkeys: callerKeys}
 		op := &runtime.ClientOperation{ID: "op", Method: "GET", PathPattern: pattern, Schemes: opSchemes, Params: w,
 			ProducesMediaTypes: []string{"application/json"}, ConsumesMediaTypes: []string{"application/json"}}
@@ -311,12 +343,18 @@ func (prop) Run(t *testing.T, tape *kernel.Tape, sc kernel.Scenario) *kernel.Res
 				if authReads {
 					_ = req.GetPath()
 					_ = req.GetMethod()
-					_ = req.GetQueryParams()
-					_ = req.GetHeaderParams()
+					// what the getters hand out is the writer's to keep: canonicalising or masking it in place must not reach the request
+					for _, vs := range req.GetQueryParams() {
+						sort.Strings(vs)
+						for i := range vs {
+							vs[i] = "masked"
+						}
+					}
+					_ = req.GetHeaderParams() // the live header map by design: not touched
 					_ = req.GetBody()
 				}
 				for _, k := range authKeys {
-					_ = req.SetQueryParam(k, authQ[k]...)
+					_ = req.SetQueryParam(k, append([]string(nil), authQ[k]...)...)
 				}
 				return nil
 			})
@@ -508,4 +546,16 @@ func queryClass(base, pat, caller url.Values) string {
 		}
 	}
 	return strings.Join(out, ",")
+}
+
+var placeholderRe = regexp.MustCompile(`\{([^{}/?]+)\}`)
+
+// failingTransport: the connection cannot be established.
+type failingTransport struct{}
+
+func (failingTransport) RoundTrip(r *http.Request) (*http.Response, error) {
+	if r.Body != nil {
+		_ = r.Body.Close()
+	}
+	return nil, stderrors.New("dial tcp: connection refused")
 }
